@@ -4,4 +4,5 @@
 //! vacuously.  This crate is never executed.
 #![allow(dead_code, unused_variables, clippy::all)]
 
+pub mod escape;
 pub mod locks;
